@@ -98,6 +98,7 @@ def keyring_stage(work, res, tier, replay=None):
             vlib.run_harness(work, binp, test, {"VERIF_PATHS": paths, "VERIF_TRACE": tr})
             if os.path.getsize(tr) > 0:
                 traces.append((tr, "replay", None))
+                res.cov["traces_validated_against_impl"] += 1
         if not traces:
             raise Infra("the path file next to %s produced no calls" % replay)
     else:
@@ -193,7 +194,7 @@ def keyring_stage(work, res, tier, replay=None):
                 classes.add((e["op"], "panic" if e["pan"] else e["res"], len(b) if b is not None else -1,
                              key_class(e, b), "x" if e["nx"] else ""))
                 exchanges += e["nx"]
-                if k in (7, 20000) and len(res.cov["samples"]) < 4:
+                if k in (1, 7, 20000) and len(res.cov["samples"]) < 4:
                     res.cov["samples"].append({a: e[a] for a in ("case", "i", "node", "op", "key", "klen", "pre", "res",
                                                                 "ring", "prim", "held", "nx", "xfail")})
     res.cov["distinct_nontrivial"] = len(classes)
@@ -206,7 +207,9 @@ def keyring_stage(work, res, tier, replay=None):
         "every key list GetKeys returned during a sequence (explicit calls and the harness's own reading after each "
         "call) is held and re-read after every later call; a list that changes is a verdict (sequential witness of the "
         "race with decryptPayload, which iterates such a list outside the lock)",
-        "the order of the non-primary keys and a more tolerant NewKeyring are not part of the property: reported as drift",
+        "not part of the property, reported as drift: the order of the non-primary keys, a NewKeyring more tolerant "
+        "than the reference, and a result code that differs while the ring is right (the codes the property fixes - "
+        "removing the primary and using an absent key are errors - are judged by C17_Remove / C17_Use)",
         "rotation: 3 nodes, barrier between the phases; exchange = encryptPayload with the sender's primary "
         "(both encryption versions), decryptPayload with the receiver's GetKeys()",
     ]
